@@ -649,6 +649,11 @@ def _build_with(t, ctx, cls):
         if t[1] == "1":
             alts.append(None)
         return T.Either(*alts)
+    if h == "TraitK":
+        # Trait(default, c1, c2, …, T1, …): the _TraitMaker factory sorts constants and members itself
+        return T.Trait(build_value(t[1], ctx), *([build_value(c, ctx) for c in t[2]] + [_inner(x, ctx) for x in t[3:]]))
+    if h == "EitherK":
+        return T.Either(*([build_value(c, ctx) for c in t[1]] + [_inner(x, ctx) for x in t[2:]]))
     if h == "Union":
         return T.Union(*[_inner(x, ctx) for x in t[1:]])
     if h == "String":
@@ -733,6 +738,8 @@ def _handler(t, ctx):
 
 def as_ctrait(o):
     import traits.api as T
+    if isinstance(o, T.CTrait):
+        return o
     if isinstance(o, T.TraitType):
         return o.as_ctrait()
     return T.Trait(o)
@@ -821,8 +828,11 @@ def cast_types(t, acc):
     elif h in ("Base", "Tuple", "BaseTuple", "Union", "CompoundH"):
         for x in t[1:]:
             cast_types(x, acc)
-    elif h in ("Either", "ValidatedTuple"):
+    elif h in ("Either", "ValidatedTuple", "EitherK"):
         for x in t[2:]:
+            cast_types(x, acc)
+    elif h == "TraitK":
+        for x in t[3:]:
             cast_types(x, acc)
     return acc
 
@@ -836,8 +846,11 @@ def regex_ids(t, acc):
     elif h in ("Base", "Tuple", "BaseTuple", "Union", "CompoundH"):
         for x in t[1:]:
             regex_ids(x, acc)
-    elif h in ("Either", "ValidatedTuple"):
+    elif h in ("Either", "ValidatedTuple", "EitherK"):
         for x in t[2:]:
+            regex_ids(x, acc)
+    elif h == "TraitK":
+        for x in t[3:]:
             regex_ids(x, acc)
     return acc
 
@@ -1089,6 +1102,12 @@ def single_traits():
     # validate_trait_complex is a separate copy of the code)
     out += ["(Either 1 Bool)", "(Either 0 Bool Str)", "(Either 0 Str Bool)", "(Either 0 Int Str)", "(Either 0 Float Str)",
             "(Either 0 Str Float Int)", "(CompoundH Bool Int)", "(Either 1 Complex)", "(Either 0 (Tuple Bool Int) Str)"]
+    # definitions made by the _TraitMaker factory that mix enumerated constants with members:
+    # Either(c1, c2, T…) (default None) and Trait(default, c1, c2, T…); default listed / not listed, with / without None
+    out += ["(EitherK ((i 1) (i 2)) Str)", "(EitherK ((i 1) (i 2) N) Str)", "(EitherK ((s a) (f 4)) Int Float)",
+            "(TraitK (i 5) ((i 1) (i 2)) Str)", "(TraitK (i 1) ((i 1) (i 2)) Str)", "(TraitK N ((i 1) (s a)) Int)",
+            "(TraitK (i 5) ((i 1) (i 2)))", "(TraitK (i 1) ((i 1) (i 2)))", "(TraitK (s abc) ((s a) N) Float Str)",
+            "(TraitK (f 6) ((i 1) (i 2)) Int Bytes)"]
     out += ["(Either 1 Int Str)", "(Either 0 Float Int)", "(Either 0 CInt Float)", "(Either 0 (Callable 0) Int)",
             "(Either 1 (RangeF 0 8 1 0) (Tuple Int Int))", "(Either 0 Int (RangeI 0 2 0 0) Str)",
             "(Either 0 (Enum (i 1) (i 2)) (Instance (u 2) 0 0 N))", "(CompoundH (CoerceH float) (EnumH (s a)))",
